@@ -134,7 +134,8 @@ Theorem C09_kauri_no_qc_otherwise : forall c st e q, (forall id v sg, e <> KCont
 Proof. exact kauri_no_qc_otherwise. Qed.
 Print Assumptions C09_kauri_no_qc_otherwise.
 
-Theorem C09_kauri_verifies_means : forall c h l, kverify (kc_members c) h l = true ->
+(* ([kverify_c]: with BLS12 the empty aggregate — no participants, identity point — also verifies; it carries nothing) *)
+Theorem C09_kauri_verifies_means : forall c h l, kverify_c c h l = true ->
   NoDup (map s_lab l) /\ forall s, In s l -> In (s_lab s) (kc_members c) /\ s_real s = Some (s_lab s, h).
 Proof. exact kverify_genuine. Qed.
 Print Assumptions C09_kauri_verifies_means.
@@ -183,7 +184,7 @@ Proof. repeat split; vm_compute; reflexivity. Qed.
 
 (* Kauri: node 1 (root of n = 4, own vote) merges {2} then {3,4}: the second one completes the quorum *)
 Example C09_kauri_nonvacuous :
-  let c := mkKC [1;2;3;4]%N [2;3;4]%N false [9]%N in
+  let c := mkKC [1;2;3;4]%N [2;3;4]%N false [9]%N false in
   snd (krun c kinit [KBegin 9 5 [ex_G 1 9]; KContrib 2 5 (Some [ex_G 2 9]); KContrib 2 5 (Some [ex_G 2 9]);
                      KContrib 3 5 (Some [ex_G 3 9; ex_G 4 9])]%N)
   = [[]; []; []; [OQC (mkQC 9 5 [ex_G 3 9; ex_G 4 9; ex_G 2 9; ex_G 1 9])]]%N.
